@@ -365,6 +365,9 @@ def compare_roundtrip(fmt, recipe, exp, got, _depth=0, lonlat=None):
     order = None
     if "dir" in sdims:
         dtol = {"swan": 5.1e-5, "octopus": 0.5, "funwave": 5.1e-4}.get(base, 0.0)
+        if base == "ww3":
+            # (dir + 180) % 360 on write and again on read, in the coordinate's own precision
+            dtol = 1e-4 if recipe.get("dir_dtype") == "float32" else 1e-9
         dg, de = np.asarray(got["dir"].values, float) % 360, np.asarray(exp["dir"].values, float) % 360
         # directions are labels: match each written direction to the read one (circular distance)
         dist = np.abs(((de[:, None] - dg[None, :]) + 180) % 360 - 180)
